@@ -126,6 +126,17 @@ impl<'a> Ctx<'a> {
     pub fn is_open(&self, key: &str) -> bool {
         self.known_open.contains(key)
     }
+    /// For failures that should not end the case when they are a listed open finding: records the hit
+    /// and returns true (caller continues); returns false when the key is not listed (caller fails).
+    pub fn note_known(&mut self, key: &str) -> bool {
+        if !self.strict && self.known_open.contains(key) {
+            *self.known_hits.entry(key.to_string()).or_insert(0) += 1;
+            self.excluded_known += 1;
+            true
+        } else {
+            false
+        }
+    }
     /// Report a failed expectation. If the key is a listed open finding the search continues.
     pub fn fail(&mut self, sub: &str, key: &str, msg: String) -> Option<Failure> {
         if !self.strict && self.known_open.contains(key) {
